@@ -146,6 +146,15 @@ def build(tl):
     return model, engine
 
 
+def timing_snapshot(td):
+    """The caller-visible content of a TimingData object, as exact fractions."""
+    return tuple(tuple((Fraction(e.beat), Fraction(e.value)) for e in getattr(td, k)) for k in ("bpms", "stops", "delays", "warps")) + (Fraction(td.offset),)
+
+
+def timing_snapshot_of_tl(tl):
+    return tuple(tuple((Fraction(b), Fraction(v)) for b, v in tl[k]) for k in ("bpms", "stops", "delays", "warps")) + (Fraction(tl["offset"]),)
+
+
 def to_beat(fr):
     return Beat(fr.numerator, fr.denominator)
 
